@@ -93,6 +93,34 @@ class WeightPatch:
         return False
 
 
+class DataTap:
+    """Every add_datapoint call seen by a harness, grouped the way the library keeps its tables (label -> sub-label -> list);
+    diff(env) compares them with Environment.simulation_data: what is stored is exactly what was reported, in order (C15)."""
+
+    def __init__(self):
+        self.calls = {}
+
+    def add(self, label, sub, dp):
+        self.calls.setdefault((label, sub), []).append(dp)
+
+    def diff(self, env):
+        data = env.simulation_data
+        for (label, sub), lst in self.calls.items():
+            got = data.get(label, {}).get(sub)
+            if got is None:
+                return 'no table %r/%r although %d datapoints were reported' % (label, sub, len(lst))
+            if len(got) != len(lst):
+                return 'table %r/%r holds %d datapoints, %d were reported (last reported: %r)' % (label, sub, len(got), len(lst), lst[-1])
+            for i, (a, b) in enumerate(zip(got, lst)):
+                if a is not b and a != b:
+                    return 'table %r/%r entry %d is %r, reported was %r' % (label, sub, i, a, b)
+        for label, d in data.items():
+            for sub, lst in d.items():
+                if lst and (label, sub) not in self.calls:
+                    return 'table %r/%r holds %d datapoints that were never reported' % (label, sub, len(lst))
+        return None
+
+
 def run_model(family, inputs, chunk=200):
     """Run the extracted model on a list of integer inputs; returns list of int lists."""
     lines = [' '.join(str(x) for x in [family] + list(inp)) for inp in inputs]
